@@ -110,8 +110,9 @@ pub enum Op {
     Bad { c: usize },
     Disc { id: usize, sel: DiscSel },
     Send { c: usize, dst: usize, batch: bool, ecn: u8, seg: u16, tok: String },
-    /// A hand-built frame: type tag, then the given bytes (used by C05).
-    Raw { c: usize, desc: String, bytes: Vec<u8> },
+    /// A hand-built frame (used by C05): `desc` is the script text, `bytes` the whole frame,
+    /// `contents` the datagram contents (bytes and token) if the frame is datagram-shaped.
+    Raw { c: usize, desc: String, bytes: Vec<u8>, contents: Option<(Vec<u8>, String)> },
     Ping { c: usize, data: [u8; 8] },
     Pong { c: usize, data: [u8; 8] },
     Stall { c: usize },
@@ -634,7 +635,14 @@ async fn run_async(script: &Script) -> Trace {
                 let f = encode_datagram(key(*dst).as_bytes(), *batch, *ecn, *seg, &contents);
                 w.push_in(*c, Inbound::Frame(f.into()));
             }
-            Op::Raw { c, bytes, .. } => w.push_in(*c, Inbound::Frame(Bytes::from(bytes.clone()))),
+            Op::Raw { c, bytes, contents, .. } => {
+                if let Some((b, t)) = contents {
+                    if !tr.toks.iter().any(|(_, x)| x == t) {
+                        tr.toks.push((b.clone(), t.clone()));
+                    }
+                }
+                w.push_in(*c, Inbound::Frame(Bytes::from(bytes.clone())));
+            }
             Op::Ping { c, data } => {
                 let mut f = vec![9u8];
                 f.extend_from_slice(data);
